@@ -6,6 +6,7 @@
 import SkModel.Gen.Generated
 import SkModel.Runner
 import SkModel.Since
+import SkModel.NameRx
 import SkModel.Proofs.SeekShape
 import SkModel.Theorems.C16
 
@@ -480,6 +481,27 @@ theorem bridge_apply_single (outs : List COut) :
   | nil => simp
   | cons c r => simp [apply_single_loop]
 
+
+/-! ### `logrotate_log_sort` (C09) -/
+
+/-- `logrotate_log_sort` as written = `Sk.logrotateKey` (C09): the order in which the three
+    expressions are tried, 0 for a match without a group, the number for a match with one,
+    100000 when none matches.  The expressions themselves are the hand-written NameRx model
+    (`PyPrim.rxLive / rxRot / rxRotGz`); what is translated and proved is the control flow
+    around them. -/
+theorem bridge_logrotate_log_sort (s : List Char) :
+    logrotate_log_sort s = .ret (logrotateKey s) := by
+  unfold logrotate_log_sort logrotateKey rxLive rxRot rxRotGz
+  simp only []
+  generalize stripFinalNL s = b
+  generalize hA : (allNonSpace b && endsWith dotLog b && decide (b.length ≥ 5)) = A
+  generalize h2 : rxLogN b = r2
+  generalize h3z : (if endsWith ['.', 'g', 'z'] b = true then
+      rxLogN (List.take (b.length - ['.', 'g', 'z'].length) b) else none) = r3z
+  generalize h3 : (if endsWith ['.', 'g'] b = true then
+      rxLogN (List.take (b.length - ['.', 'g'].length) b) else none) = r3
+  cases A <;> cases r2 <;> cases r3z <;> cases r3 <;> simp
+
 #print axioms bridge_num_parallel_tasks
 #print axioms bridge_since_window
 #print axioms bridge_find_token
@@ -492,3 +514,4 @@ theorem bridge_apply_single (outs : List COut) :
 
 end Sk.Gen
 #print axioms Sk.Gen.bridge_apply_single
+#print axioms Sk.Gen.bridge_logrotate_log_sort
